@@ -1,6 +1,6 @@
 """C14 — a descriptor claims a PSBT scope only when the script really is its own.
 
-Theorems: lean/EmbitModel/Props/C14.lean (owns_sound, never_claims, owns_complete, first_match_only over the model
+Theorems: lean/EmbitModel/Props/C14.lean (owns_sound, never_claims, owns_complete, old_first_match_rejected_honest_scope over the model
 of Descriptor.owns / Key.check_derivation / AllowedDerivation.check_derivation, for every key list, every scope and
 every derive-script function). Tie to the code: ranged descriptors from harness/dgen.py; PSBT scopes are built with
 embit's own PSBT classes (and round-tripped through PSBT.serialize / PSBT.parse) carrying correct, foreign,
@@ -423,7 +423,7 @@ def run(tier, seed):
               "is distinct by (class, descriptor, script, records, scope)")
     c.assumptions = ["the recorded public keys and tap-leaf hashes of a scope are not read by owns(); they are dummy values",
                      "completeness is demanded for honest scopes only (DESIGN Appendix D): with mixed records the first "
-                     "matching record decides (theorem first_match_only)"]
+                     "matching record decides (the pre-fix rule, theorem old_first_match_rejected_honest_scope)"]
     c.build_and_audit()
     pool = dgen.Pool(c.rng)
     pool.distinct_sets = True      # <a;a> makes the branch of a record ambiguous: outside the honest-scope claims
